@@ -33,6 +33,9 @@ def inputs_for(tier, seed):
     # many small graphs: rare shapes (nesting depth >= 2, region predecessors) show up at 5..9 blocks
     for i in range(3000 if tier == "quick" else 60000):
         out.append(("small", gen_graphs.random_closed(rng, rng.randrange(5, 10)), "basic"))
+    # input blocks whose names look like the generator's own
+    for i in range(400 if tier == "quick" else 8000):
+        out.append(("gennames", gen_graphs.random_closed(rng, rng.randrange(3, 10)), "basic-gn"))
     nrand = 1200 if tier == "quick" else 40000
     for i in range(nrand):
         n = rng.randrange(5, 13) if i % 2 == 0 else rng.randrange(13, 41)
@@ -45,7 +48,7 @@ def exh5_shards():
 
 
 def block_factory(kind):
-    if kind == "basic":
+    if kind in ("basic", "basic-gn"):
         return None
     if kind == "bc":
         from numba_scfg.core.datastructures.basic_block import PythonBytecodeBlock
@@ -67,7 +70,7 @@ OBSERVERS = []  # functions (stage_index, scfg, orig) -> dict merged into the st
 
 def run_one(item):
     src, succ, pk = item
-    sc = stages.make_scfg(succ, block_factory(pk))
+    sc = stages.make_scfg(succ, block_factory(pk), stages.namer_for(succ, pk))
     orig = export.original_of(sc)
     texts = []
     recs = []
@@ -230,7 +233,8 @@ def get_snapshot(tier, seed):
 
 def rebuild(graph, payload, upto_stage):
     """Re-run the implementation on one graph up to a stage (for the violation search)."""
-    sc = stages.make_scfg(tuple(tuple(s) for s in graph), block_factory(payload))
+    g_ = tuple(tuple(s) for s in graph)
+    sc = stages.make_scfg(g_, block_factory(payload), stages.namer_for(g_, payload))
     orig = export.original_of(sc)
     for k, st in enumerate(stages.STAGES):
         getattr(sc, st)()
